@@ -177,21 +177,28 @@ def run_kani_units(pid, tier, scratch, report, only=None):
         return None
     for mname, m in mods.items():
         report['trusted'] += scan_trusted(open(os.path.join(hdir, m['file'])).read(), 'kani:' + m['file'])
-    names = [reg.full_name(h) for h in hs]
-    per_timeout = max(h.get('timeout', 600) for h in hs)
-    jobs = min(int(os.environ.get('VERIF_JOBS', '16')), len(hs))
-    res = ku.run_kani(xt_dir, names, jobs, per_timeout, outer_timeout=per_timeout * 2 + 900,
-                      log_path=os.path.join(scratch, 'kani.log'))
-    report['kani_cmd'] = res['cmd'].replace(scratch, '<scratch>')
-    report['kani_wall_s'] = round(res['wall_s'], 1)
-    j = res['json']
-    if j is None:
-        tail = res['stdout'][-3000:]
-        reason = 'cargo kani produced no result file (build error in harness or source; timeout=%s)' % res['timeout']
-        report['undecided'].append(dict(obligation='%s/kani-build' % pid, backend='kani', reason=reason, output=tail))
-        return None
-    by_id = {r['harness_id']: r for r in j.get('verification_results', {}).get('results', [])}
-    stats = {c['harness_id']: (c.get('cbmc_stats') or {}) for c in (j.get('cbmc') or [])}
+    # harnesses that need extra CBMC options (e.g. the memory-leak check) run in an invocation of their own
+    groups = {}
+    for h in hs:
+        groups.setdefault(tuple(h.get('kani_args', ())), []).append(h)
+    by_id, stats = {}, {}
+    report['kani_wall_s'] = 0
+    for gi, (gargs, ghs) in enumerate(sorted(groups.items())):
+        names = [reg.full_name(h) for h in ghs]
+        per_timeout = max(h.get('timeout', 600) for h in ghs)
+        jobs = min(int(os.environ.get('VERIF_JOBS', '16')), len(ghs))
+        res = ku.run_kani(xt_dir, names, jobs, per_timeout, outer_timeout=per_timeout * 2 + 900, extra=gargs,
+                          log_path=os.path.join(scratch, 'kani%s.log' % ('' if gi == 0 else gi)))
+        report['kani_cmd'] = (report.get('kani_cmd', '') + ' ; ' if gi else '') + res['cmd'].replace(scratch, '<scratch>')
+        report['kani_wall_s'] = round(report['kani_wall_s'] + res['wall_s'], 1)
+        j = res['json']
+        if j is None:
+            tail = res['stdout'][-3000:]
+            reason = 'cargo kani produced no result file (build error in harness or source; timeout=%s)' % res['timeout']
+            report['undecided'].append(dict(obligation='%s/kani-build' % pid, backend='kani', reason=reason, output=tail))
+            return None
+        by_id.update({r['harness_id']: r for r in j.get('verification_results', {}).get('results', [])})
+        stats.update({c['harness_id']: (c.get('cbmc_stats') or {}) for c in (j.get('cbmc') or [])})
     for h in hs:
         fq = reg.full_name(h)
         r = by_id.get(fq)
